@@ -562,6 +562,31 @@ class C10(Property):
             if wave.shape != ref_wave.shape or not np.allclose(wave, ref_wave, rtol=1e-5, atol=1e-6):
                 ctx.violation(f"window-array-multislice-differs-{how}", case, {"shape": wave.shape, "ref_shape": ref_wave.shape})
                 return
+        # other selections of __getitem__: stepped (increasing: the parent's planes that fall on selected slices, at their position
+        # in the selection) and reversed (not increasing: no consistent planes, the last slice of the selection)
+        n = len(ts)
+        for name, sel in (("reversed", slice(None, None, -1)), ("stepped", slice(a, None, 2)), ("reversed-window", slice(b - 1, None if a == 0 else a - 1, -1))):
+            idx = list(range(n))[sel]
+            if not idx:
+                continue
+            inc = all(y > x for x, y in zip(idx[:-1], idx[1:]))
+            exp = [idx.index(p) for p in parent if p in idx] if inc else []
+            if inc and parent[0] == -1 and idx[0] == 0:
+                exp = [-1] + exp
+            if not exp:
+                exp = [len(idx) - 1]
+            w = full[sel]
+            planes = [int(p) for p in w.exit_planes]
+            ctx.evaluations += 1
+            if planes != exp:
+                ctx.violation(f"selection-exit-planes-wrong-{name}", dict(case, selection=name), {"exit_planes": planes, "expected": exp, "parent": parent, "selected": idx})
+                return
+            ref = abtem.PotentialArray(np.asarray(full.array)[idx], slice_thickness=tuple(ts[i] for i in idx), extent=(CELL, CELL), exit_planes=tuple(exp))
+            rw = np.asarray(abtem.PlaneWave(energy=100e3).multislice(ref, lazy=False).array)
+            ww = np.asarray(abtem.PlaneWave(energy=100e3).multislice(w, lazy=False).array)
+            if ww.shape != rw.shape or not np.allclose(ww, rw, rtol=1e-5, atol=1e-6):
+                ctx.violation(f"selection-multislice-differs-{name}", dict(case, selection=name), {"shape": ww.shape, "ref_shape": rw.shape})
+                return
 
     def conformance(self, ctx: Ctx):
         rng = ctx.rng
